@@ -34,6 +34,20 @@ def handle : List String → String
       let (out, res) := Model.Indent.writes p false cs
       encBytes out ++ " ;" ++ String.join (res.map fun (n, e) => s!" {n}:{if e then 1 else 0}")
     | _, _ => "bad-op"
+  | "nested" :: p1 :: p2 :: rest =>
+    -- nested <inner prefix> <outer prefix> (<chunk> <o|i>)*   (o = Write on the outer writer)
+    let rec ops : List String → Option (List (Bool × List UInt8))
+      | [] => some []
+      | c :: w :: r => do
+        let cb ← decBytes c
+        let tl ← ops r
+        some ((w == "o", cb) :: tl)
+      | _ => none
+    match decBytes p1, decBytes p2, ops rest with
+    | some p1, some p2, some l =>
+      let (out, res) := Model.Indent.nestedWrites p1 p2 false false l
+      encBytes out ++ " ;" ++ String.join (res.map fun n => s!" {n}")
+    | _, _, _ => "bad-op"
   | ["spec.count", p, st, c, k] =>
     match decBytes p, decNat st, decBytes c, decNat k with
     | some p, some st, some c, some k => toString (Spec.Indent.callerBytesIn p (st == 1) c k)
